@@ -1,7 +1,10 @@
 prop("C14",
      level_text="full on model for the NAT tables: setup_clean_inverse, sync_all_exact (for every iteration order of the "
                 "Go map), frame_foreign (unconditional, also for failing calls), restore_atomic, chain-name injectivity "
-                "of the hash input; KUBE-MARK-MASQ is carved out of the frame (D18: setup_rewrites_kube_mark_masq + "
+                "of the hash input; the daemon's per-pod protocol of pkg/galaxy/server.go (port file written before "
+                "SetupPortMapping; failed_add_leaves_nothing for EVERY failing iptables call, add_then_del_leaves_nothing, "
+                "faulty_del_then_retry_leaves_nothing; failed_restore_keeps_port_file_counter = known finding "
+                "cleanup-fails-when-chains-missing); KUBE-MARK-MASQ is carved out of the frame (D18: setup_rewrites_kube_mark_masq + "
                 "_counter, known finding kube-mark-masq-rewritten).  Sockets: ports_distinct_while_held, "
                 "second_bind_fails_while_held, failed_open_leaves_none, held_until_close, close_releases are proved "
                 "over a model of the kernel bind table; that the kernel behaves like the model is tested, not proved.",
